@@ -26,6 +26,7 @@ theorem skipped_is_keep (h : History) (i : Nat) (hi : i < h.length) (hnd : inDif
   cases hop : h[i] with
   | keep => rfl
   | write q => simp [hop] at hnd
+  | link q => simp [hop] at hnd
   | delete =>
     cases i with
     | zero => rw [viewAt_zero h hi, hop] at hs; simp [applyOp] at hs
@@ -120,17 +121,17 @@ theorem cacheOK_insert (img : Nat → History) (c : Cache) (f i : Nat) (hc : Cac
 theorem has_getD (v : Option (List Pkg)) (p : Pkg) : has v p = (v.getD []).contains p := by
   cases v <;> simp [has]
 
-def noErr : Nat → Bool := fun _ => false
-
-/-- the three outcomes of `fetch` when extraction does not fail and the cache is valid -/
-theorem fetch_cases (img : Nat → History) (f i : Nat) (c : Cache) (hc : CacheOK img c) :
-    (∃ c', fetch (img f) noErr f i c = .pkgs ((viewAt (img f) i).getD []) c' ∧ CacheOK img c') ∨
-    (fetch (img f) noErr f i c = .skip ∧ inDiff (img f) i = false ∧ (viewAt (img f) i).isSome = true) := by
+/-- the outcomes of `fetch` on a valid cache: the packages of view `i` (cached or re-extracted), a skip
+(file present in the view, absent from the layer's diff), or a failed run (only when cancelled) -/
+theorem fetch_cases (img : Nat → History) (cancelAt : Option Nat) (f i : Nat) (s : St) (hc : CacheOK img s.cache) :
+    (∃ s', fetch (img f) cancelAt f i s = .pkgs ((viewAt (img f) i).getD []) s' ∧ CacheOK img s'.cache) ∨
+    (fetch (img f) cancelAt f i s = .skip ∧ inDiff (img f) i = false ∧ (viewAt (img f) i).isSome = true) ∨
+    (fetch (img f) cancelAt f i s = .err ∧ cancelled cancelAt s.runs = true) := by
   unfold fetch
-  cases hcf : c (f, i) with
+  cases hcf : s.cache (f, i) with
   | some ps =>
     left
-    refine ⟨c, ?_, hc⟩
+    refine ⟨s, ?_, hc⟩
     simp only []
     rw [hc f i ps hcf]
   | none =>
@@ -138,36 +139,45 @@ theorem fetch_cases (img : Nat → History) (f i : Nat) (c : Cache) (hc : CacheO
     cases hv : viewAt (img f) i with
     | none =>
       left
-      refine ⟨c.insert (f, i) [], by simp, ?_⟩
-      have := cacheOK_insert img c f i hc
+      refine ⟨⟨s.cache.insert (f, i) [], s.runs⟩, by simp, ?_⟩
+      have := cacheOK_insert img s.cache f i hc
       rw [hv] at this
       simpa using this
     | some ps =>
       simp only []
       by_cases hd : inDiff (img f) i = true
-      · left
-        refine ⟨c.insert (f, i) ps, by simp [hd, noErr], ?_⟩
-        have := cacheOK_insert img c f i hc
-        rw [hv] at this
-        simpa using this
-      · right
+      · by_cases hcan : cancelled cancelAt s.runs = true
+        · right; right
+          simp [hd, hcan]
+        · left
+          refine ⟨⟨s.cache.insert (f, i) ps, s.runs + 1⟩, by simp [hd, hcan], ?_⟩
+          have := cacheOK_insert img s.cache f i hc
+          rw [hv] at this
+          simpa using this
+      · right; left
         simp only [Bool.not_eq_true] at hd
         simp [hd]
+
+/-- what the trace of one package may return: THE origin, or nothing at all when a re-extraction failed
+(which only a cancelled context causes) -/
+def Traced (img : Nat → History) (cancelAt : Option Nat) (f : Nat) (p : Pkg) (r : Option Nat × St) : Prop :=
+  ((∃ L, r.1 = some L ∧ IsOrigin (img f) p L) ∨ (r.1 = none ∧ cancelled cancelAt r.2.runs = true)) ∧
+  CacheOK img r.2.cache
 
 /-- Main invariant of the backwards loop. `cnt` layers remain (indices `cnt-1 … 0`); `last` is
 `lastScannedLayerIndex`; the package is in every view from `last` on; the layers strictly between were
 skipped, i.e. they keep the file and the file exists there. -/
-theorem loop_isOrigin (img : Nat → History) (f : Nat) (p : Pkg) :
-    ∀ cnt last c, cnt ≤ last → last < (img f).length → CacheOK img c →
+theorem loop_isOrigin (img : Nat → History) (cancelAt : Option Nat) (f : Nat) (p : Pkg) :
+    ∀ cnt last s, cnt ≤ last → last < (img f).length → CacheOK img s.cache →
       (∀ j, last ≤ j → j < (img f).length → present (img f) j p = true) →
       (∀ k, cnt ≤ k → k < last → ∃ hk : k < (img f).length, (img f)[k] = .keep ∧ (viewAt (img f) k).isSome = true) →
-      IsOrigin (img f) p (loop (img f) noErr f p cnt last c).1 ∧ CacheOK img (loop (img f) noErr f p cnt last c).2 := by
+      Traced img cancelAt f p (loop (img f) cancelAt f p cnt last s) := by
   intro cnt
   induction cnt with
   | zero =>
-    intro last c _ hlast hc hP hZ
+    intro last s _ hlast hc hP hZ
     simp only [loop]
-    refine ⟨⟨by omega, ?_, fun L' _ _ => Nat.zero_le _⟩, hc⟩
+    refine ⟨Or.inl ⟨0, rfl, by omega, ?_, fun L' _ _ => Nat.zero_le _⟩, hc⟩
     intro j _ hj
     by_cases hl : last = 0
     · exact hP j (by omega) hj
@@ -175,7 +185,7 @@ theorem loop_isOrigin (img : Nat → History) (f : Nat) (p : Pkg) :
       rw [view0_not_keep (img f) hk hkeep] at hsome
       cases hsome
   | succ i ih =>
-    intro last c hle hlast hc hP hZ
+    intro last s hle hlast hc hP hZ
     -- the views on [i, last) coincide with view i
     have hconst : ∀ j, i ≤ j → j < last → viewAt (img f) j = viewAt (img f) i := by
       intro j h1 h2
@@ -185,19 +195,19 @@ theorem loop_isOrigin (img : Nat → History) (f : Nat) (p : Pkg) :
       obtain ⟨hk, hkeep, _⟩ := hZ k (by omega) (by omega)
       exact ⟨hk, hkeep⟩
     simp only [loop]
-    rcases fetch_cases img f i c hc with ⟨c', hf, hc'⟩ | ⟨hf, hnd, hsome⟩
+    rcases fetch_cases img cancelAt f i s hc with ⟨s', hf, hc'⟩ | ⟨hf, hnd, hsome⟩ | ⟨hf, hcan⟩
     · rw [hf]
       simp only []
       by_cases hin : ((viewAt (img f) i).getD []).contains p = true
       · simp only [hin, if_true]
-        apply ih i c' (Nat.le_refl _) (by omega) hc'
+        apply ih i s' (Nat.le_refl _) (by omega) hc'
         · intro j h1 h2
           by_cases hjl : j < last
           · unfold present; rw [hconst j h1 hjl, has_getD]; exact hin
           · exact hP j (by omega) h2
         · intro k h1 h2; omega
       · simp only [hin, Bool.false_eq_true, if_false]
-        refine ⟨⟨hlast, hP, ?_⟩, hc'⟩
+        refine ⟨Or.inl ⟨last, rfl, hlast, hP, ?_⟩, hc'⟩
         intro L' hL' hpres
         apply Classical.byContradiction
         intro hlt
@@ -213,12 +223,27 @@ theorem loop_isOrigin (img : Nat → History) (f : Nat) (p : Pkg) :
         exact hin hj
     · rw [hf]
       simp only []
-      apply ih last c (by omega) hlast hc hP
+      apply ih last s (by omega) hlast hc hP
       intro k h1 h2
       by_cases hk : k = i
       · subst hk
         exact ⟨by omega, skipped_is_keep (img f) k (by omega) hnd hsome, hsome⟩
       · exact hZ k (by omega) h2
+    · rw [hf]
+      exact ⟨Or.inr ⟨rfl, hcan⟩, hc⟩
+
+/-- the trace of one package from any valid shared state -/
+theorem traceC_traced (img : Nat → History) (cancelAt : Option Nat) (f : Nat) (p : Pkg) (s : St)
+    (hc : CacheOK img s.cache) (hp : present (img f) ((img f).length - 1) p = true) :
+    Traced img cancelAt f p (traceC (img f) cancelAt f p s) := by
+  have hn : 0 < (img f).length := by
+    cases hh : img f with
+    | nil => rw [hh] at hp; simp [present, viewAt, has] at hp
+    | cons a t => simp
+  exact loop_isOrigin img cancelAt f p ((img f).length - 1) ((img f).length - 1) s (Nat.le_refl _) (by omega) hc
+    (fun j h1 h2 => by
+      have : j = (img f).length - 1 := by omega
+      subst this; exact hp) (fun k h1 h2 => by omega)
 
 /-! ### inserting a layer that does not touch the file -/
 
